@@ -1,3 +1,3 @@
 (* C19 — lemmas: this file only gathers the proof files. *)
 From ADV Require Export C19.ProofsRot C19.ProofsList C19.ProofsLookup C19.ProofsIns
-  C19.ProofsDel C19.ProofsRun C19.ProofsIter C19.ProofsIds C19.ProofsPar.
+  C19.ProofsDel C19.ProofsRun C19.ProofsIter C19.ProofsIds C19.ProofsPar C19.ProofsNext.
